@@ -194,24 +194,26 @@ where
         // header must be ignored (RFC2616 #4.4)
         None
     } else {
-        match headers
+        // every Content-Length line counts: each value must be a plain decimal number that
+        // fits, and all of them must agree; anything else (sign, list, garbage, overflow,
+        // two different lengths) would let two parsers disagree about the framing
+        let mut content_length: Option<usize> = None;
+        for h in headers
             .iter()
-            .find(|h: &&Header| h.field.equiv("Content-Length"))
+            .filter(|h: &&Header| h.field.equiv("Content-Length"))
         {
-            None => None,
-            // the value must be a plain decimal number that fits; anything else (sign,
-            // list, garbage, overflow) would let two parsers disagree about the framing
-            Some(h) => {
-                let value = h.value.as_str();
-                if value.is_empty() || !value.bytes().all(|b| b.is_ascii_digit()) {
-                    return Err(RequestCreationError::InvalidContentLength);
+            let value = h.value.as_str();
+            if value.is_empty() || !value.bytes().all(|b| b.is_ascii_digit()) {
+                return Err(RequestCreationError::InvalidContentLength);
+            }
+            match FromStr::from_str(value) {
+                Ok(len) if content_length.map_or(true, |seen| seen == len) => {
+                    content_length = Some(len)
                 }
-                match FromStr::from_str(value) {
-                    Ok(len) => Some(len),
-                    Err(_) => return Err(RequestCreationError::InvalidContentLength),
-                }
+                _ => return Err(RequestCreationError::InvalidContentLength),
             }
         }
+        content_length
     };
 
     // true if the client sent a `Expect: 100-continue` header
